@@ -26,13 +26,13 @@ def floors(tier):
             'objects_evaluated_via_sympy': 2000, 'zero_tests_compared': 20000, 'reference_zero_functions_seen': 500,
             'equality_pairs_compared': 5000, 'equal_pairs_seen': 200, 'operand_snapshots_verified': 20000,
             'op_add': 3000, 'op_sub': 3000, 'op_mul': 3000, 'op_div': 2000, 'op_neg': 500, 'op_pow': 800, 'op_inv': 300,
-            'reflected_number_ops': 1500}
+            'reflected_number_ops': 1500, 'codegen_cases': 300, 'codegen_coefficients_evaluated': 2000}
 
 
 def plan(tier, seed):
     n = 16 if tier == 'quick' else 64
     per = 5000 if tier == 'quick' else 16000
-    return [{'trees': per, 'salt': i} for i in range(n)]
+    return [{'trees': per, 'codegen_cases': 40 if tier == 'quick' else 400, 'salt': i} for i in range(n)]
 
 
 # ---- reference rational functions: (num, den) FreePoly pairs -------------------------------------
@@ -238,11 +238,100 @@ def build(ctx, rng, depth, trace, made):
 
 def run_shard(shard, ctx):
     rng = ctx.rng
+    for t in range(shard.get('codegen_cases', 0)):
+        if ctx.out_of_time():
+            break
+        codegen_case(ctx, rng)
     for t in range(shard['trees']):
         if ctx.out_of_time():
             ctx.count('trees_skipped_out_of_time')
             break
         one_tree(ctx, rng)
+
+
+CODEGEN_OPS = ['sw', 'proj', 'normsq', 'inv', 'outerexp', 'outersin', 'outercos', 'gp*gp', 'polarity']
+
+
+def codegen_case(ctx, rng):
+    """The polynomials that real code generation produces: run kingdon's own symbolic derivation of a composite operator on
+    multivectors with RationalPolynomial coefficients (exactly what OperatorDict.__getitem__ does) and evaluate every resulting
+    coefficient object structurally at random rational points against the reference model's value of the operator."""
+    from kingdon.polynomial import RationalPolynomial
+    import kingdon.codegen as cg
+    from kvm import gen, ops
+    from kvm.iso import Iso
+    cfg = rng.choice(gen.sig_orderings(2, 3) + gen.pqr_all(4, 4)[::3] + [{'named': '2DPGA'}])
+    alg = gen.make_algebra(cfg)
+    iso = Iso(alg)
+    canon = tuple(alg.canon2bin.values())
+    op = rng.choice(CODEGEN_OPS)
+    arity = 2 if op in ('sw', 'proj', 'gp*gp') else 1
+    cap = 3 if alg.d >= 4 else 4
+    keysets = []
+    for _ in range(arity):
+        ks = gen.random_subset(rng, canon, cap, 1)
+        if rng.random() < 0.3:
+            ks = gen.permuted(rng, ks)
+        keysets.append(ks)
+    cid = ['codegen', gen.cfg_str(cfg), op, [list(k) for k in keysets]]
+    if not ctx.want(cid):
+        return
+    mvs = [alg.multivector(name=nm, keys=ks, symbolcls=RationalPolynomial.fromname) for nm, ks in zip('ab', keysets)]
+
+    def derive():
+        if op == 'inv':
+            num, denom = cg.codegen_inv(mvs[0], symbolic=True)
+            return num, denom
+        if op == 'gp*gp':
+            return (mvs[0] * mvs[1]) * mvs[0], None
+        return getattr(cg, 'codegen_' + op)(*mvs), None
+    st, out = ctx.guarded(30, derive)
+    if st != 'ok':
+        if st == 'exc':
+            ctx.note_raised(out, 'codegen-' + op)
+        return
+    res, denom = out
+    items = dict(res.items()) if hasattr(res, 'items') else dict(res)
+    ctx.count('codegen_cases')
+    ctx.case(cid)
+    for attempt in range(3):
+        env = {}
+        valmaps = []
+        for nm, ks in zip('ab', keysets):
+            vm = {}
+            for k in ks:
+                v = Fr(rng.randint(-9, 9), rng.randint(1, 4))
+                env[f'{nm}{alg.bin2canon[k][1:]}'] = v
+                vm[k] = v
+            valmaps.append(vm)
+        refs = [iso.to_ref(vm.items()) for vm in valmaps]
+        try:
+            refop = {'gp*gp': None}.get(op, op)
+            want = iso.ref.gp(iso.ref.gp(refs[0], refs[1]), refs[0]) if op == 'gp*gp' else ops.ref_apply(iso, op, *refs)
+        except ops.NoReference:
+            continue
+        try:
+            got = {k: eval_object(v, env) for k, v in items.items()}
+            if denom is not None:
+                dv = eval_object(denom, env)
+                if dv in (None, 0):
+                    continue
+                got = {k: v / dv for k, v in got.items()}
+        except Exception as e:
+            ctx.note_raised(e, 'codegen-structure')
+            return
+        if any(v is None for v in got.values()):
+            continue
+        ctx.count('codegen_coefficients_evaluated', len(got))
+        from kvm.compare import elem_diff, show_elem
+        # derivations divide by small integers through floats (v / j -> v * (1/j)), so 1/6 is a float constant: compare to 1e-9
+        bad = elem_diff({k: float(v) for k, v in iso.to_ref(got.items()).items()}, {k: float(v) for k, v in want.items()})
+        if bad:
+            ctx.violation('polynomial produced by code generation denotes a different function', cid, config=cfg, op=op,
+                          keys=[list(k) for k in keysets], point={k: str(v) for k, v in env.items()},
+                          got=show_elem({k: iso.to_ref(got.items()).get(k, 0) for k in bad[:4]}), expected=show_elem({k: want.get(k, 0) for k in bad[:4]}),
+                          objects={str(k): structure(v) for k, v in list(items.items())[:4]})
+            return
 
 
 def one_tree(ctx, rng):
